@@ -343,7 +343,7 @@ def run(F, R, tier):
         init = sc[0]["cond"]["init"]
         gated = any(x.get("k") == "MethodCall" and x["name"] in ("then", "then_some") and peel(x["recv"]).get("k") == "Unary" and peel(x["recv"])["op"] == "!" and expr_text(peel(x["recv"])["e"]).endswith("is_asset") for x in walk(init))
         g = guards_at(F, sc[0])
-        gated = gated or any(x.kind == "cond" and not x.pol and expr_text(x.node).endswith("is_asset") for x in g)
+        gated = gated or any(x.kind == "cond" and not x.pol and peel(x.node).get("field") == "is_asset" for x in g)
         R.ob("C13-c", "embedded module info is only used for module (non-asset) loads", gated,
              "the manifest shortcut is taken for asset imports too: a file imported as text/bytes would become a full module with its imports followed, unlike the parsing path", where(sc[0]))
     hc = F.body("graph::Builder::handle_jsr_registry_pending_content_loads")
